@@ -50,6 +50,8 @@ func main() {
 		code = scenarioStress()
 	case "twin":
 		code = scenarioTwin()
+	case "datagram":
+		code = scenarioDatagram()
 	case "pintime":
 		code = scenarioPinTime()
 	default:
